@@ -590,6 +590,9 @@ def run_c09(ctx):
     for cfg in ctx.cfgs:
         if ctx.tier == 'quick':
             space = itertools.chain(gen.enum_tokens(3), itertools.islice(gen.enum_tokens(4, minlen=4), 0, None, 17), doc_inputs(ctx, 700))
+        elif cfg != ctx.cfgs[0]:
+            # thorough tier: the full token space runs in the first configuration (the reader code is the same in all); the others get a 1-in-5 sample of it plus documents
+            space = itertools.chain(gen.enum_tokens(3), itertools.islice(gen.enum_tokens(4, minlen=4), 0, None, 5), doc_inputs(ctx, 7000))
         else:
             space = space_inputs(ctx)
         for batch in chunks(space, 300000):
